@@ -72,7 +72,8 @@ def push_rule(ctx, facts, rid):
             mk = [e for e in events if e[0] == "call" and (e[2] or "").endswith("::make_raw")]
             pushes = [e for e in events if _is_stack_push(e)]
             reps = [e for e in events if _is_repeat_push(e)]
-            stores = [e for e in events if e[0] == "store"]
+            # stores into the repetition table's own entry (`*map.entry(k).or_insert(0) += 1`) belong to repeat.push
+            stores = [e for e in events if e[0] == "store" and "or_insert" not in show(unstamp(e[1])) and "self.repeat" not in show(unstamp(e[1]))]
             key = "push<%s>" % m_ty
             variant = ret[2] if ret[0] == "agg" and ret[1] == "core::result::Result" else "?"
             if variant == "Ok":
@@ -245,7 +246,8 @@ def eq_rule(ctx, facts, rid):
         "start": ("self.start" in blob and "other.start" in blob),
         "len": ("len(&*self.stack)" in blob or "len(&*self.stack" in blob) and ("len(&*other.stack" in blob),
         "outcome": ("self.outcome" in blob and "other.outcome" in blob),
-        "moves": ("self.stack" in blob and "other.stack" in blob and ("zip" in blob or "all" in blob)),
+        "moves": ("self.stack" in blob and "other.stack" in blob and ("zip" in blob or "all" in blob))
+                 or ("iterator::Iterator::eq" in blob and "iter(" in blob),
     }
     for k, ok in need.items():
         r.check(ok, "eq/" + k, "BaseMoveChain::eq does not compare %s of both chains" % k, site=ctx.site(fn), what="eq compares " + k)
@@ -258,6 +260,18 @@ def eq_rule(ctx, facts, rid):
             if "owlchess::moves::base::Move as core::cmp::PartialEq>::eq" in nm or \
                     nm == "core::cmp::impls::<impl core::cmp::PartialEq for &owlchess::moves::base::Move>::eq":
                 okc = True
+    if not okc:
+        # other shape: `self.iter().eq(other.iter())` - Iterator::eq over the chains' move iterators (items are Move, compared by ==)
+        for n, conds, _i in walk_tree(tree):
+            if n[0] == "call" and (n[2] or "").endswith("iterator::Iterator::eq") and len(n[3]) == 2:
+                a, b2 = show(unstamp(n[3][0])), show(unstamp(n[3][1]))
+                if "iter(" in a and "iter(" in b2 and "self" in a and "other" in b2 and "Move" in n[1]:
+                    # iter() yields the recorded moves: its closure projects the pair to its first component
+                    for f in facts.fns.values():
+                        if f.def_path.startswith(CHAIN_R + "iter::{closure"):
+                            rets = [x[1] for x in FxBuilder(facts).tree(f) if x[0] == "ret"]
+                            if rets and show(unstamp(rets[0])).endswith(".#0"):
+                                okc = True
     r.check(okc, "eq/closure", "the element-wise comparison does not compare the moves with Move::eq", site=ctx.site(fn), what="closure compares Move == Move")
 
 
@@ -497,11 +511,28 @@ def repeat_pairing_rule(ctx, facts, rid):
     if fn is not None:
         fb = FxBuilder(facts)
         tree = fb.tree(fn)
-        subs = [n for n, _c, _i in walk_tree(tree) if n[0] == "store" and "SubWithOverflow 1" in show(n[2])]
-        rem = [n for n, c, _i in walk_tree(tree) if n[0] == "call" and (n[2] or "").endswith("::remove")
-               and any("0 Eq" in show(unstamp(x[0])) or "Eq 0" in show(unstamp(x[0])) for x in c)]
-        r.check(len(subs) == 1 and len(rem) == 1, "HashRepeat::pop/decrement", "HashRepeat::pop does not decrement by one and remove at zero",
-                site=ctx.site(fn), what="pop: count -= 1, remove entry at 0")
+        subs = [(n, c) for n, c, _i in walk_tree(tree) if n[0] == "store" and "SubWithOverflow 1" in show(n[2])]
+        rems = [(n, c) for n, c, _i in walk_tree(tree) if n[0] == "call" and (n[2] or "").endswith("::remove")]
+        okpop = False
+        if len(subs) == 1 and len(rems) == 1:
+            (st, sc), (rm, rc) = subs[0], rems[0]
+
+            def tests(conds):
+                out = []
+                for d, lab, _cv in conds:
+                    t = show(unstamp(d))
+                    truth = not (lab != "else" and 0 in lab)
+                    for k in (0, 1):
+                        if t.startswith("(%d Eq " % k) or t.endswith(" Eq %d)" % k):
+                            out.append((k, truth, d))
+                return out
+            for k, truth, d in tests(rc):
+                if k == 0 and truth:
+                    okpop = True            # count -= 1; if count == 0 { remove }
+                if k == 1 and truth and any(k2 == 1 and not t2 for k2, t2, _d2 in tests(sc)):
+                    okpop = True            # if count == 1 { remove } else { count -= 1 }
+        r.check(okpop, "HashRepeat::pop/decrement", "HashRepeat::pop does not decrement by one and remove the entry that would reach zero",
+                site=ctx.site(fn), what="pop: count -= 1, entry removed at 0")
     clos = [f for f in facts.fns.values() if f.def_path.startswith("<owlchess::chain::HashRepeat as owlchess::chain::Repeat>::push::{closure")]
     okc = False
     for c in clos:
@@ -516,6 +547,11 @@ def repeat_pairing_rule(ctx, facts, rid):
         for n, _c, _i in walk_tree(fb.tree(fnp)):
             if n[0] == "call" and (n[2] or "").endswith("or_insert") and n[3][1] == ("const", 1, "usize"):
                 ins1 = True
+        # other shape: `*map.entry(k).or_insert(0) += 1`
+        ins0 = any(n[0] == "call" and (n[2] or "").endswith("or_insert") and n[3][1] == ("const", 0, "usize") for n, _c, _i in walk_tree(fb.tree(fnp)))
+        inc = any(n[0] == "store" and "AddWithOverflow 1" in show(n[2]) and "or_insert" in show(unstamp(n[1])) for n, _c, _i in walk_tree(fb.tree(fnp)))
+        if ins0 and inc:
+            okc = ins1 = True
     r.check(okc and ins1, "HashRepeat::push/increment", "HashRepeat::push does not increment by one / insert 1", what="push: count += 1 or insert 1")
 
 
